@@ -45,6 +45,30 @@ pub fn run(bin: &Path, argv: &[String], hash_seed: u64, io: &Io) -> std::io::Res
         let _ = std::fs::remove_file(l);
         c.env("SIMSEAM_IO_LOG", l);
     }
+    // S6: the child's clock starts at a seeded time and ticks by seeded amounts
+    c.env("SIMSEAM_CLOCK", (hash_seed ^ 0xC10C).to_string());
+    // irrelevant environment, seeded: nothing in it may influence the result
+    {
+        let mut st = hash_seed ^ 0xE4F;
+        let mut next = || simcore::prng::splitmix64(&mut st);
+        let vars: [(&str, &[&str]); 9] = [
+            ("HOME", &["/root", "/nonexistent", "/tmp"]),
+            ("USER", &["root", "nobody"]),
+            ("LANG", &["C", "en_US.UTF-8", "de_DE.UTF-8", "tr_TR.UTF-8"]),
+            ("LC_ALL", &["C", "POSIX", "en_US.UTF-8"]),
+            ("TZ", &["UTC", "Asia/Kathmandu", "America/St_Johns"]),
+            ("TERM", &["xterm-256color", "dumb"]),
+            ("COLUMNS", &["20", "80", "500"]),
+            ("NO_COLOR", &["1"]),
+            ("TMPDIR", &["/tmp", "/nonexistent"]),
+        ];
+        for (k, vals) in vars {
+            let r = next();
+            if r % 3 != 0 {
+                c.env(k, vals[(r >> 8) as usize % vals.len()]);
+            }
+        }
+    }
     // S5: no ASLR in children; the heap layout is skewed by a seeded amount instead
     c.env("SIMSEAM_HEAP_SKEW", (hash_seed.wrapping_mul(0x9E37_79B9_7F4A_7C15) >> 7).to_string());
     unsafe {
